@@ -39,6 +39,52 @@ CLAIMED['C14'] = {
     'technique': 'Coq proof by induction over the position list + extracted-model correspondence + spec oracle on all map notes',
 }
 
+CLAIMED['C01'] = {
+    'text': 'Theorems C01_chunk_independent / C01_any_buffer_size prove that, for every text with a well-formed ISA header, '
+            'EVERY read schedule and every buffer size >= 1, the model of RawX12File yields exactly the non-empty '
+            'terminator-delimited pieces of the text (Spec/C01_spec.v, written without buffer or schedule); '
+            'C01_segment_construction that each raw string becomes exactly the specified segment (ISA never split, '
+            'blanks/trailing separators flagged); C01_format_parse_* / C01_reread the format-then-read round trip up to '
+            'the documented trimming, exactness when nothing is to trim, and idempotence; C01_path_stream_agree that a '
+            'path source is the same stream under the regenerated open() arguments. Model and code are run on documents '
+            'over 5-8 delimiter triples x 5 line conventions, terminators at every offset -2..+2 around k*8192, segments '
+            'longer than 1-3 buffers, under four read schedules, as stream and by path, and the extracted spec is '
+            'applied to the implementation.',
+    'design_ref': 'DESIGN.md §6 C01',
+    'note': 'Trusted: Coq kernel; hand transcription of RawX12File/X12Reader.__iter__/Segment; the read-schedule abstraction of '
+            'a text stream; regenerated constants (ISA_LEN, DEFAULT_BUFSIZE, offsets, open() mode/newline); extraction + '
+            'driver. Path opening is modelled for ASCII content; the file system itself is exercised by the differential runs only.',
+    'technique': 'Coq proof by invariant over the buffer/stream state for all schedules + extracted-model correspondence + spec oracle',
+}
+CLAIMED['C04'] = {
+    'text': 'Theorem C04_reader_exact proves, for every properly nested document tree (any number of interchanges/groups/sets, '
+            'any control numbers and declared counts incl. non-numeric, trailers possibly missing at end of input), that the '
+            'envelope errors of the reader model at every segment and at end of input equal an independent structural recount '
+            '(Spec/C04_spec.v: no stack, no counters); C04_consistent_silent and C04_ill_nested_detected give the two '
+            'remaining sentences of the property for ALL segment lists; C04_reader_total that nothing but the documented '
+            'X12Error is raised. Tied to the code by running model and X12Reader on generated trees, truncations and '
+            'structural mutations, with the extracted recount applied to the implementation.',
+    'design_ref': 'DESIGN.md §6 C04',
+    'note': 'Trusted: Coq kernel; hand transcription of X12Base._parse_segment / X12Reader._parse_segment / cleanup; PyInt.py_int '
+            'as model of int(); extraction + driver; Spec/C04_spec.v. HL/LX numbering is specified by the same stack '
+            'discipline as the code and checked on the implementation by an independent recount in the harness.',
+    'technique': 'Coq proof by nested induction over the document tree + extracted-model correspondence + recount oracle',
+}
+CLAIMED['C17'] = {
+    'text': 'Theorems C17_parse_print / C17_format_parse / C17_reparse_equal / C17_rejects prove the path laws for EVERY '
+            'well-formed path of the documented grammar (unbounded depth and indices) against the regex regenerated from '
+            'path.py, via a list-of-outcomes semantics of the backtracking matcher (m_ms) and an unambiguity proof of the '
+            'designator grammar; C17_set_get_* / C17_set_extends / C17_set_frame* / C17_other_segment_refused / '
+            'C17_write_sequences prove the segment read/write laws for all segments, positions and write sequences, and '
+            'C17_designator_indices links printed designators to positions. Tied to the code by ~60k paths (grammar '
+            'enumeration, every node path of shipped maps, random strings) and random set/get/format/copy histories.',
+    'design_ref': 'DESIGN.md §6 C17',
+    'note': 'Trusted: Coq kernel; regex translator; Lib/Regex.v as model of re.search; hand transcription of X12Path and Segment; '
+            'extraction + driver; Spec/C17_spec.v. Component-level set on an ISA segment is outside the model (an ISA has no '
+            'components; its Composite objects keep the element separator).',
+    'technique': 'Coq proof (regex outcome semantics + grammar unambiguity; list refinement for set/get) + extracted-model correspondence',
+}
+
 NOT_YET = {
 }
 
